@@ -50,6 +50,76 @@ impl PackageBuilder {
         ensures clamped(self.source_date, now, r),''',
           tail='\n        signature_timestamp'),
     Raw('''}
+// ---- the pgp signer: the creation time written into the signature is the timestamp it is given ----
+/// R5 stand-ins for the chrono / pgp types the first statements of `Signer::sign` touch; only the
+/// second count of the date and the list of hashed subpackets matter
+pub struct DateTime { pub secs: i64 }
+impl Copy for DateTime {}
+impl Clone for DateTime { fn clone(&self) -> Self { *self } }
+impl DateTime {
+    /// chrono's DateTime<Utc> is ordered by the instant (Ord::max / Ord::min)
+    #[verifier::external_body]
+    pub fn max(self, o: DateTime) -> (r: DateTime) ensures r.secs == (if self.secs >= o.secs { self.secs } else { o.secs }) { unimplemented!() }
+    #[verifier::external_body]
+    pub fn min(self, o: DateTime) -> (r: DateTime) ensures r.secs == (if self.secs <= o.secs { self.secs } else { o.secs }) { unimplemented!() }
+}
+/// the secret key: only its creation time is visible here, and it is arbitrary
+pub struct SecretKey { pub created: DateTime }
+impl SecretKey {
+    #[verifier::external_body]
+    pub fn created_at(&self) -> (r: &DateTime) ensures *r == self.created { unimplemented!() }
+}
+pub struct LocalResult { pub dt: DateTime }
+impl LocalResult {
+    #[verifier::external_body]
+    pub fn unwrap(self) -> (r: DateTime) ensures r == self.dt { unimplemented!() }
+}
+pub struct UtcTz;
+impl UtcTz {
+    /// chrono: `Utc.timestamp_opt(secs, 0)` is the instant `secs` seconds after the epoch
+    #[verifier::external_body]
+    pub fn timestamp_opt(&self, secs: i64, nanos: u32) -> (r: LocalResult) ensures nanos == 0 ==> r.dt.secs == secs { unimplemented!() }
+}
+pub enum SignatureType { Binary }
+pub enum HashAlgorithm { SHA2_256 }
+pub struct PublicKeyAlgorithm;
+pub enum SubpacketData { SignatureCreationTime(DateTime), Issuer(u64), IssuerFingerprint(u64) }
+pub struct Subpacket { pub critical: bool, pub data: SubpacketData }
+impl Subpacket {
+    #[verifier::external_body]
+    pub fn regular(data: SubpacketData) -> (r: Subpacket) ensures r.data == data, !r.critical { unimplemented!() }
+}
+pub struct SignatureConfig { pub hashed_subpackets: Vec<Subpacket> }
+impl SignatureConfig {
+    /// pgp: a fresh v4 configuration has no subpackets
+    #[verifier::external_body]
+    pub fn v4(typ: SignatureType, alg: PublicKeyAlgorithm, hash: HashAlgorithm) -> (r: SignatureConfig)
+        ensures r.hashed_subpackets@.len() == 0,
+    { unimplemented!() }
+}
+pub struct AlgorithmType;
+#[verifier::external_body]
+pub fn algo_into(a: AlgorithmType) -> PublicKeyAlgorithm { unimplemented!() }
+pub struct Signer { pub secret_key: SecretKey }
+impl Signer {
+    #[verifier::external_body]
+    pub fn algorithm(&self) -> AlgorithmType { unimplemented!() }
+'''),
+    Block('src/rpm/signature/pgp.rs', 'sign', impl='''impl<T> traits::Signing for Signer<T>
+where
+    T: SecretKeyTrait,''', exclusive=True, keep_end=True,
+          start='        use ::chrono::offset::TimeZone;\n',
+          end='.push(Subpacket::regular(SubpacketData::SignatureCreationTime(t)));',
+          subs=[('::chrono::offset::Utc', 'UtcTz', 1, 'R5-chrono stand-in'),
+                ('t.0.into()', '(t.0 as i64)', 1, 'R7-lossless widening conversion u32 -> i64'),
+                ('self.algorithm().into()', 'algo_into(self.algorithm())', 1, 'R5-From<AlgorithmType> for PublicKeyAlgorithm')],
+          header='''    /// the OpenPGP SignatureCreationTime subpacket carries exactly the timestamp handed to the signer
+    pub fn c11_sig_creation_time(&self, t: Timestamp) -> (r: SignatureConfig)
+        ensures
+            r.hashed_subpackets@.len() == 1,
+            r.hashed_subpackets@[0].data == SubpacketData::SignatureCreationTime(DateTime { secs: t.0 as i64 }),''',
+          tail='\n        sig_cfg'),
+    Raw('''}
 // vacuity canary: must FAIL
 pub fn canary_c11(b: &PackageBuilder, now: Timestamp)
 {
@@ -59,5 +129,6 @@ pub fn canary_c11(b: &PackageBuilder, now: Timestamp)
 '''),
 ] + TAIL
 
-OBLIGATIONS = {'PackageBuilder::c11_mtime': ['C11'], 'PackageBuilder::c11_build_time': ['C11'], 'PackageBuilder::c11_signature_time': ['C11']}
+OBLIGATIONS = {'PackageBuilder::c11_mtime': ['C11'], 'PackageBuilder::c11_build_time': ['C11'], 'PackageBuilder::c11_signature_time': ['C11'],
+               'Signer::c11_sig_creation_time': ['C11']}
 CANARIES = ['canary_c11']
